@@ -4,7 +4,7 @@
 //	c10 progs <progs.ndjson> <events.ndjson>   TLC-emitted decoder programs (DecodeTreeMC): real trees dumped with d/dd/dv/hd
 //	c10 rand  <n> <events.ndjson> [repo]       seeded random binaries, decoder programs with nested buffers, real formats
 //	c10 json  <cases.ndjson> <events.ndjson>   JSON output half (json.go)
-//	c10 parse <L> <unicode 0|1> <text file> <events.ndjson>   run the parser alone on a given text (binding demo)
+//	c10 demo  <events.ndjson>                  binding demo: real dump text damaged by hand, parsed again (demo.go)
 //
 // fq runs in-process through its CLI entry point (interp.Main) with a virtual OS; the values to display are handed
 // to the jq program by a registered function, displayed by the real d/dd/dv/ddv/hd jq functions, and the text
